@@ -1,6 +1,6 @@
 import StepupModel.K.Scheduler
 import StepupModel.Lemmas.K
-import StepupModel.Lemmas.MetaAfter
+import StepupModel.Lemmas.MetaAfterW
 /-!
 # C10  Dispatch is exact: nothing ineligible starts, nothing eligible is left
 
@@ -188,15 +188,17 @@ theorem defer_cap (cap k : Nat) (h : cap ≤ k) : deferOutcome cap k = .failed :
 /-! ## The cached `_implied_need` / `_tail_time` agree with their definition after a refresh -/
 
 open StepupModel.K.MetaAfter in
-/-- Worklist correctness of `_update_meta_after`.  Flag discipline (`CacheInvAfter`): every attached
+/-- Worklist correctness of `_update_meta_after`.  Flag discipline (`CacheInvAfterW`): every attached
 step that is not flagged `_check_after` satisfies its local equation (cached pair = value
 recomputed from its declared need, its outputs versus the targets, and the cached pairs of the
-attached consumer steps).  Then after the refresh EVERY attached step satisfies its local equation,
+attached consumer steps) OR has a flagged consumer step (the first round writes and propagates
+from every flagged step).  This is the discipline the code maintains: a new input edge flags only
+the consumer, and the producer is repaired in the second round.  Then after the refresh EVERY attached step satisfies its local equation,
 all flags are cleared and nothing but the three cached columns changed. -/
 theorem update_meta_after_correct (s s' : KState) (cfg : KConfig) (hk : KeysUnique s)
-    (hc : CacheInvAfter s cfg) (h : s.updateMetaAfter cfg = .ok s') :
+    (hc : CacheInvAfterW s cfg) (h : s.updateMetaAfter cfg = .ok s') :
     AfterConsistent s' cfg ∧ (∀ n ∈ s'.nodes, n.key.kind = .step → n.checkAfter = false) ∧ AfterFrame s s' :=
-  updateMetaAfter_correct s s' cfg hk hc h
+  updateMetaAfter_correct_weak s s' cfg hk hc h
 
 open StepupModel.K.MetaAfter in
 /-- The local equations determine the cached columns: two tables that differ only in the cached
@@ -212,9 +214,9 @@ open StepupModel.K.MetaAfter in
 /-- The incremental refresh equals the refresh from scratch (every step flagged), as an equation
 of states, on an acyclic table that obeys the flag discipline. -/
 theorem incremental_refresh_equals_from_scratch (s s' : KState) (cfg : KConfig) (hac : Acyclic s)
-    (hk : KeysUnique s) (hc : CacheInvAfter s cfg) (h : s.updateMetaAfter cfg = .ok s') :
+    (hk : KeysUnique s) (hc : CacheInvAfterW s cfg) (h : s.updateMetaAfter cfg = .ok s') :
     recomputeAfter s cfg = .ok s' :=
-  updateMetaAfter_eq_recomputeAfter s s' cfg hac hk hc h
+  updateMetaAfter_eq_recomputeAfter_weak s s' cfg hac hk hc h
 
 open StepupModel.K.MetaAfter in
 /-- `_update_meta_after` terminates (never reports a hang) in every reachable database: the
@@ -224,9 +226,10 @@ theorem update_meta_after_terminates_after_every_history (h : List (KConfig × R
     ∃ s', (KState.init.run h).updateMetaAfter cfg = .ok s' :=
   updateMetaAfter_reachable_no_hang h cfg
 
-/-! The flag discipline `CacheInvAfter` itself is NOT a theorem over all histories: it is what the
-defects F14/F20 violated.  It is evaluated on the real database by the cache oracle after every
-generated request (`koracles.cache_invariants`). -/
+/-! The flag discipline `CacheInvAfterW` itself is NOT a theorem over all histories: it is what the
+defect F20 violated.  It is evaluated (a) on the model state after every request of the generated
+histories (`k cacheinv` of the driver runs `cacheInvAfterWB`, proved equivalent to it), and (b) on
+the real database by the cache oracle (`koracles.cache_invariants`). -/
 
 /-! Non-vacuity -/
 example : dispatchSpec (.pending, true, false, false, false, .default, true) = true := by decide
